@@ -223,10 +223,10 @@ def _run_item(kind, r):
         mk = (lambda: ht.tags.html(ht.tags.body("page %d" % r["n"]), **({"id": "root"} if r["root_attrs"] else {}))) if r["root"] == "html" else \
              (lambda: ht.tags.body("page %d" % r["n"], **({"id": "root"} if r["root_attrs"] else {})))     # noqa: E731
         pg, pristine = mk(), mk()
-        ht.HTMLDocument(pg, lang="en", class_="first").render()
+        first_doc = ht.HTMLDocument(pg, lang="en", class_="first", style="margin:0;", id="root-id", title="t").render()["html"]
         later = (str(pg), ht.HTMLDocument(pg).render()["html"], ht.HTMLDocument(pg, lang="fr").render()["html"])
         want = (str(pristine), ht.HTMLDocument(mk()).render()["html"], ht.HTMLDocument(mk(), lang="fr").render()["html"])
-        return {"html": _d("|".join(later)), "same_when_rendered_again": later == want}
+        return {"html": _d("|".join(later)), "first_document": _d(first_doc), "same_when_rendered_again": later == want}
     if kind == "longtwin":
         x = ht.HTML(r["s"]) if r["html"] else r["s"]
         t = ht.div(x, title=r["s"]) if r["also_attr"] else ht.div(x)
@@ -242,6 +242,14 @@ def _run_item(kind, r):
         a.add_class("added")
         a.attrs["data-a"] = "1"
         ok = (str(b), str(shared_kids)) == before
+        # a list of numbers the caller keeps using after it was handed to child operations: still the caller's numbers
+        vals = [1, 2.5, 0, True]
+        c1, c2 = ht.div(), ht.span("s")
+        c1.extend(vals)
+        c2.children += vals
+        c3 = ht.TagList(*vals) + vals
+        c2.insert(0, vals)
+        ok = ok and vals == [1, 2.5, 0, True] and [type(v_) for v_ in vals] == [int, float, int, bool] and len(c3) == 8
         # dependencies built without script / stylesheet / meta each have their own (empty) lists
         d1, d2 = ht.HTMLDependency("plain-a", "1.0"), ht.HTMLDependency("plain-b", "1.0")
         hc_other = ht.head_content(ht.tags.title("other"))
